@@ -222,12 +222,13 @@ theorem vector_drop_destroys_each_item_once (cfg : Cfg) (w : World) (ms : Refine
 (any fault-free reachable world does), after any well-typed script - vectors created, operated on element-wise / by ranges /
 by capacity requests, cloned, elements handed from one to another, vectors dropped, in any order - the world shows a state
 of the abstract machine in which no identity occurs twice among all the vectors, every one is older than the counter of
-identities, and none of them has been destroyed. -/
+identities, none of them has been destroyed, and none of them is at the same time in the caller's hands. -/
 theorem one_owner_through_life_cycles (cfg : Cfg) (ops : List RefineMulti.AOp) (w : World) (ms : RefineMulti.MSpec)
     (h : RefineMulti.MRel w ms) (hsafe : RefineMulti.Safe cfg ms ops) :
     ∃ ms', RefineMulti.ASteps cfg ms ops ms' ∧ RefineMulti.MRel (RefineMulti.arun cfg w ops) ms' ∧
       ms'.allItems.Nodup ∧ (∀ id ∈ ms'.allItems, id < ms'.next) ∧
-      ∀ id ∈ ms'.allItems, id ∉ (RefineMulti.arun cfg w ops).dropLog := by
+      (∀ id ∈ ms'.allItems, id ∉ (RefineMulti.arun cfg w ops).dropLog) ∧
+      ∀ id ∈ ms'.allItems, id ∉ (RefineMulti.arun cfg w ops).held := by
   obtain ⟨ms', hsteps, hrel⟩ := RefineMulti.life_cycles_refine cfg ops w ms h hsafe
   exact ⟨ms', hsteps, hrel, RefineMulti.mrel_unique _ ms' hrel⟩
 
